@@ -86,7 +86,7 @@ GEN_TAIL = "SPECIFICATION GSpec\nINVARIANT EmitHist\nCHECK_DEADLOCK FALSE\n"
 
 
 def gen_cfg(mode, maxlen=3, selseed=1, selmod=12):
-    return (base_constants() + '  GenMode = "%s"\n  MaxLen = %d\n  MenuN = 14\n  SelSeed = %d\n  SelMod = %d\n' % (mode, maxlen, selseed, selmod)
+    return (base_constants() + '  GenMode = "%s"\n  MaxLen = %d\n  MenuN = 15\n  SelSeed = %d\n  SelMod = %d\n' % (mode, maxlen, selseed, selmod)
             + GEN_TAIL)
 
 
